@@ -4,6 +4,7 @@
 //! The Coq side (theories/Corr_*.v) evaluates the model on the same inputs and compares.
 mod e_builder;
 mod e_client;
+mod e_conn;
 mod e_codec;
 mod e_convert;
 mod e_handler;
@@ -61,6 +62,7 @@ fn run_engine(engine: &str, seed: u64, n: usize, tier: &str) {
         "client" => e_client::run(seed, n, tier),
         "net" => e_net::run(seed, n, tier),
         "node" => e_node::run(seed, n, tier),
+        "conn" => e_conn::run(seed, n, tier),
         "stream" => e_stream::run(seed, n, tier),
         "srvsplit" => e_srvsplit::run(seed, n, tier),
         "handler" => e_handler::run_client(seed, n, tier),
